@@ -80,7 +80,8 @@ Section LookupSound.
   (* the VRF as a function of (freshness, version) for the label l *)
   Variable nlabel_of : bool -> N -> nlabel.
   Hypothesis nlabel_full : forall f v, llen (nlabel_of f v) = 256 /\ WF (nlabel_of f v) /\ LW (nlabel_of f v).
-  Hypothesis vrf_unique : forall proof f v out,
+  (* versions are u64 values in the code: beyond 2^64 the 8-byte encoding inside the VRF input wraps *)
+  Hypothesis vrf_unique : forall proof f v out, v < 2 ^ 64 ->
     vrf_check pk proof (label_input_hash cfg l f v) = Some out -> NL out 256 = nlabel_of f v.
 
   (* the label's true history: versions 1..n with their values and epochs *)
@@ -91,34 +92,34 @@ Section LookupSound.
   Hypothesis eps_u64 : forall v, ep_of v < 2 ^ 64.
   (* honestly maintained tree: a leaf sitting at a fresh label of l is the prescribed one, and every
      superseded version has been retired *)
-  Hypothesis tree_fresh : forall y v, In y (leaves t) -> lf_label y = nlabel_of true v ->
+  Hypothesis tree_fresh : forall y v, v < 2 ^ 64 -> In y (leaves t) -> lf_label y = nlabel_of true v ->
     1 <= v /\ v <= n /\ lf_value y = fresh_value cfg ck (nlabel_of true v) v (val_of v) /\ lf_epoch y = ep_of v.
   Hypothesis tree_stale : forall v, 1 <= v -> v < n -> In (nlabel_of false v) (map lf_label (leaves t)).
 
   Definition lp_ok (p : lookup_proof) : Prop :=
     mp_ok (lp_existence p) /\ mp_ok (lp_marker p) /\ nmp_ok (lp_freshness p) /\
-    Len64 (lp_value p) /\ Len64 (lp_nonce p) /\ lp_epoch p < 2 ^ 64.
+    Len64 (lp_value p) /\ Len64 (lp_nonce p) /\ lp_epoch p < 2 ^ 64 /\ lp_version p < 2 ^ 64.
 
   Hypothesis nonce_len : forall v, Len64 (c_commitment_nonce cfg ck (nl_to_bytes (nlabel_of true v)) v (val_of v)).
 
-  Lemma verify_label_label fresh v proof nl :
+  Lemma verify_label_label fresh v proof nl : v < 2 ^ 64 ->
     verify_label cfg vrf_check pk l fresh v proof nl = true -> nl = nlabel_of fresh v.
   Proof.
-    clear tree_stale.
+    clear tree_stale. intros Hv64.
     unfold verify_label. destruct (vrf_check pk proof (label_input_hash cfg l fresh v)) as [out|] eqn:E; [|discriminate].
     intros H. apply nl_eqb_eq in H. rewrite <- H. now apply vrf_unique in E.
   Qed.
 
   (* an accepted existence proof with value: the leaf is the prescribed leaf of that version *)
   Lemma existence_with_val_sound value epoch nonce v vp mp :
-    mp_ok mp -> Len64 value -> Len64 nonce -> epoch < 2 ^ 64 ->
+    mp_ok mp -> Len64 value -> Len64 nonce -> epoch < 2 ^ 64 -> v < 2 ^ 64 ->
     verify_existence_with_val cfg vrf_check pk (root_hash cfg true t) l value epoch nonce true v vp mp = true ->
     (1 <= v /\ v <= n /\ value = val_of v /\ epoch = ep_of v) \/ Bad.
   Proof.
     clear tree_stale.
-    intros Hmp Lv Ln He H. unfold verify_existence_with_val, verify_existence in H.
+    intros Hmp Lv Ln He Hv64 H. unfold verify_existence_with_val, verify_existence in H.
     apply andb_true_iff in H. destruct H as [Hh H]. apply andb_true_iff in H. destruct H as [Hl Hm].
-    apply bytes_eqb_eq in Hh. apply verify_label_label in Hl.
+    apply bytes_eqb_eq in Hh. apply verify_label_label in Hl; [|exact Hv64].
     assert (Hroot : tlabel t = nl_root /\ is_leaf t = false).
     { destruct t; simpl in t_wf; [discriminate|]. apply andb_true_iff in t_wf. destruct t_wf as [W _].
       apply andb_true_iff in W. destruct W as [W _]. apply nl_eqb_eq in W. auto. }
@@ -136,7 +137,7 @@ Section LookupSound.
     destruct (full_label_is_leaf t A t_wf HA ltac:(rewrite <- HlA, Hl; exact F1)) as (ca & ea & EA).
     rewrite EA in HA, HvA, HokA. apply Sub_leaf_in in HA.
     assert (Hlab : lf_label (LF (tlabel A) ca ea) = nlabel_of true v) by (simpl; congruence).
-    destruct (tree_fresh _ v HA Hlab) as (V1 & V2 & V3 & V4). simpl in V3, V4.
+    destruct (tree_fresh _ v Hv64 HA Hlab) as (V1 & V2 & V3 & V4). simpl in V3, V4.
     simpl in HvA, HokA. destruct HokA as [_ Dca].
     rewrite <- Hh in HvA. unfold leaf_hash_with_value in HvA.
     destruct (N.ltb_spec ea (2 ^ 64)) as [Hea|Hea]; [|rewrite V4 in Hea; pose proof (eps_u64 v); lia].
@@ -152,7 +153,7 @@ Section LookupSound.
     lookup_verify cfg vrf_check pk (root_hash cfg true t) E l p = Some r ->
     (r_version r = n /\ r_value r = val_of n /\ r_epoch r = ep_of n) \/ Bad.
   Proof.
-    intros (P1 & P2 & P3 & P4 & P5 & P6) H. unfold lookup_verify in H.
+    intros (P1 & P2 & P3 & P4 & P5 & P6 & P7) H. unfold lookup_verify in H.
     destruct (E <? lp_version p); [discriminate|].
     destruct (verify_existence_with_val _ _ _ _ _ _ _ _ _ _ _ _) eqn:Ex; [|discriminate]. cbn [negb] in H.
     destruct (lp_version p =? 0); [discriminate|].
@@ -162,7 +163,7 @@ Section LookupSound.
     apply existence_with_val_sound in Ex; auto. destruct Ex as [(V1 & V2 & V3 & V4)|]; [|now right].
     (* the freshness proof shows the stale label of this version absent: it must be the latest *)
     unfold verify_nonexistence in En. apply andb_true_iff in En. destruct En as [Hl Hn].
-    apply verify_label_label in Hl.
+    apply verify_label_label in Hl; [|exact P7].
     destruct (nlabel_full false (lp_version p)) as (F1 & F2 & F3).
     apply (nonmem_sound_b cfg Bad B) in Hn; auto; [|rewrite Hl; exact F2].
     destruct Hn as [Hn|]; [|now right].
@@ -176,7 +177,7 @@ Section LookupSound.
   Hypothesis tree_has_fresh : forall v, 1 <= v -> v <= n -> In (nlabel_of true v) (map lf_label (leaves t)).
 
   Definition up_ok (u : update_proof) : Prop :=
-    mp_ok (up_existence u) /\ Len64 (up_value u) /\ Len64 (up_nonce u) /\ up_epoch u < 2 ^ 64.
+    mp_ok (up_existence u) /\ Len64 (up_value u) /\ Len64 (up_nonce u) /\ up_epoch u < 2 ^ 64 /\ up_version u < 2 ^ 64.
   Definition hp_ok (p : history_proof) : Prop :=
     Forall up_ok (hp_updates p) /\ Forall nmp_ok (hp_future p).
 
@@ -188,7 +189,7 @@ Section LookupSound.
     (1 <= up_version u /\ up_version u <= n /\ res = true_entry (up_version u)) \/ Bad.
   Proof.
     clear tree_stale.
-    intros (U1 & U2 & U3 & U4) H. unfold verify_single_update in H. cbn [andb] in H.
+    intros (U1 & U2 & U3 & U4 & U6) H. unfold verify_single_update in H. cbn [andb] in H.
     destruct (verify_existence_with_val _ _ _ _ _ _ _ _ _ _ _ _) eqn:Ex; [|discriminate]. cbn [negb] in H.
     apply existence_with_val_sound in Ex; auto. destruct Ex as [(V1 & V2 & V3 & V4)|]; [|now right].
     assert (Hres : res = VRes (up_epoch u) (up_version u) (up_value u)).
@@ -322,7 +323,7 @@ Section LookupSound.
       assert (Hnext : In (m + 1) future) by (rewrite Gm; apply MarkerFacts.next_is_future; lia).
       destruct (forall3_In _ _ _ _ Ff (m + 1) Hnext) as (vp & np & Hnp & Hv).
       unfold verify_nonexistence in Hv. apply andb_true_iff in Hv. destruct Hv as [Hl Hnm].
-      apply verify_label_label in Hl. destruct (nlabel_full true (m + 1)) as (F1 & F2 & F3).
+      apply verify_label_label in Hl; [|lia]. destruct (nlabel_full true (m + 1)) as (F1 & F2 & F3).
       rewrite Forall_forall in Pf. specialize (Pf np Hnp).
       apply (nonmem_sound_b cfg Bad B) in Hnm; auto; [|rewrite Hl; exact F2].
       destruct Hnm as [Hnm|HB]; [|right; exact HB]. exfalso. apply Hnm. rewrite Hl. apply tree_has_fresh; lia.
@@ -397,7 +398,7 @@ Section LookupSound.
       assert (Hnext : In (m + 1) future) by (rewrite Gm; apply MarkerFacts.next_is_future; lia).
       destruct (forall3_In _ _ _ _ Ff (m + 1) Hnext) as (vp & np & Hnp & Hv).
       unfold verify_nonexistence in Hv. apply andb_true_iff in Hv. destruct Hv as [Hl Hnm].
-      apply verify_label_label in Hl. destruct (nlabel_full true (m + 1)) as (F1 & F2 & F3).
+      apply verify_label_label in Hl; [|lia]. destruct (nlabel_full true (m + 1)) as (F1 & F2 & F3).
       rewrite Forall_forall in Pf. specialize (Pf np Hnp).
       apply (nonmem_sound_b cfg Bad B) in Hnm; auto; [|rewrite Hl; exact F2].
       destruct Hnm as [Hnm|HB]; [|right; exact HB]. exfalso. apply Hnm. rewrite Hl. apply tree_has_fresh; lia.
@@ -406,19 +407,19 @@ Section LookupSound.
   (* ---------------------------------------------------------------- AllowMissingValues (C07) *)
 
   (* the stale leaf of version v was inserted together with version v+1 and carries its epoch *)
-  Hypothesis tree_stale_epoch : forall y v, In y (leaves t) -> lf_label y = nlabel_of false v ->
+  Hypothesis tree_stale_epoch : forall y v, v < 2 ^ 64 -> In y (leaves t) -> lf_label y = nlabel_of false v ->
     lf_value y = c_stale_value cfg /\ lf_epoch y = ep_of (v + 1).
   Hypothesis stale_D32 : D32 (c_stale_value cfg).
   Hypothesis tree_epochs_u64 : forall y, In y (leaves t) -> lf_epoch y < 2 ^ 64.
 
-  Lemma chain_leaf fresh v vp mp : mp_ok mp ->
+  Lemma chain_leaf fresh v vp mp : v < 2 ^ 64 -> mp_ok mp ->
     verify_existence cfg vrf_check pk (root_hash cfg true t) l fresh v vp mp = true ->
     (exists c e, In (LF (nlabel_of fresh v) c e) (leaves t) /\ mp_hash_val mp = c_leaf_hash cfg c e /\ D32 c) \/ Bad.
   Proof.
     clear tree_stale.
     clear tree_stale_epoch.
-    intros Hmp H. unfold verify_existence in H. apply andb_true_iff in H. destruct H as [Hl Hm].
-    apply verify_label_label in Hl.
+    intros Hv64 Hmp H. unfold verify_existence in H. apply andb_true_iff in H. destruct H as [Hl Hm].
+    apply verify_label_label in Hl; [|exact Hv64].
     assert (Hroot : tlabel t = nl_root /\ is_leaf t = false).
     { destruct t; simpl in t_wf; [discriminate|]. apply andb_true_iff in t_wf. destruct t_wf as [W _].
       apply andb_true_iff in W. destruct W as [W _]. apply nl_eqb_eq in W. auto. }
@@ -458,12 +459,12 @@ Section LookupSound.
     (res = entry_of u /\ 1 <= up_version u /\ up_version u <= n /\ amrel (entry_of u) (true_entry (up_version u))) \/ Bad.
   Proof.
     clear tree_stale.
-    intros [(U1 & U2 & U3 & U4) U5] H. unfold verify_single_update in H. cbn [andb] in H.
+    intros [(U1 & U2 & U3 & U4 & U6) U5] H. unfold verify_single_update in H. cbn [andb] in H.
     destruct (is_tombstone (up_value u)) eqn:Et.
     - (* the value check is skipped *)
       destruct (verify_existence _ _ _ _ _ _ _ _ _) eqn:Ex; [|discriminate]. cbn [negb] in H.
-      destruct (chain_leaf true (up_version u) _ _ U1 Ex) as [(c & e & Hin & _ & _)|]; [|now right].
-      destruct (tree_fresh _ (up_version u) Hin eq_refl) as (V1 & V2 & _ & _).
+      destruct (chain_leaf true (up_version u) _ _ U6 U1 Ex) as [(c & e & Hin & _ & _)|]; [|now right].
+      destruct (tree_fresh _ (up_version u) U6 Hin eq_refl) as (V1 & V2 & _ & _).
       unfold is_tombstone in Et. apply bytes_eqb_eq in Et.
       destruct (N.leb_spec (up_version u) 1) as [Hv1|Hv1].
       + injection H as <-. left. split; [reflexivity|]. split; [exact V1|]. split; [exact V2|].
@@ -471,8 +472,8 @@ Section LookupSound.
       + destruct (up_prev u) as [pm|]; [|discriminate]. destruct (up_prev_vrf u) as [pv|]; [|discriminate].
         destruct (verify_existence_with_commitment _ _ _ _ _ _ _ _ _ _ _) eqn:Ec; [|discriminate]. injection H as <-.
         unfold verify_existence_with_commitment in Ec. apply andb_true_iff in Ec. destruct Ec as [Hh Ec]. apply bytes_eqb_eq in Hh.
-        destruct (chain_leaf false (up_version u - 1) _ _ U5 Ec) as [(c2 & e2 & Hin2 & Hv & Dc)|]; [|now right].
-        destruct (tree_stale_epoch _ (up_version u - 1) Hin2 eq_refl) as [Sv Se]. cbn [lf_value lf_epoch] in Sv, Se.
+        destruct (chain_leaf false (up_version u - 1) _ _ ltac:(lia) U5 Ec) as [(c2 & e2 & Hin2 & Hv & Dc)|]; [|now right].
+        destruct (tree_stale_epoch _ (up_version u - 1) ltac:(lia) Hin2 eq_refl) as [Sv Se]. cbn [lf_value lf_epoch] in Sv, Se.
         rewrite <- Hh in Hv.
         assert (He : e2 < 2 ^ 64) by (rewrite Se; apply eps_u64).
         apply (b_leaf_inj _ _ B) in Hv; auto. destruct Hv as [[_ Hee]|]; [|now right].
@@ -563,7 +564,7 @@ Section LookupSound.
       assert (Hnext : In (m + 1) future) by (rewrite Gm; apply MarkerFacts.next_is_future; lia).
       destruct (forall3_In _ _ _ _ Ff (m + 1) Hnext) as (vp & np & Hnp & Hv).
       unfold verify_nonexistence in Hv. apply andb_true_iff in Hv. destruct Hv as [Hl Hnm].
-      apply verify_label_label in Hl. destruct (nlabel_full true (m + 1)) as (F1 & F2 & F3).
+      apply verify_label_label in Hl; [|lia]. destruct (nlabel_full true (m + 1)) as (F1 & F2 & F3).
       rewrite Forall_forall in Pf. specialize (Pf np Hnp).
       apply (nonmem_sound_b cfg Bad B) in Hnm; auto; [|rewrite Hl; exact F2].
       destruct Hnm as [Hnm|HB]; [|right; exact HB]. exfalso. apply Hnm. rewrite Hl. apply tree_has_fresh; lia.
@@ -639,7 +640,7 @@ Section LookupSound.
       assert (Hnext : In (m + 1) future) by (rewrite Gm; apply MarkerFacts.next_is_future; lia).
       destruct (forall3_In _ _ _ _ Ff (m + 1) Hnext) as (vp & np & Hnp & Hv).
       unfold verify_nonexistence in Hv. apply andb_true_iff in Hv. destruct Hv as [Hl Hnm].
-      apply verify_label_label in Hl. destruct (nlabel_full true (m + 1)) as (F1 & F2 & F3).
+      apply verify_label_label in Hl; [|lia]. destruct (nlabel_full true (m + 1)) as (F1 & F2 & F3).
       rewrite Forall_forall in Pf. specialize (Pf np Hnp).
       apply (nonmem_sound_b cfg Bad B) in Hnm; auto; [|rewrite Hl; exact F2].
       destruct Hnm as [Hnm|HB]; [|right; exact HB]. exfalso. apply Hnm. rewrite Hl. apply tree_has_fresh; lia.
@@ -667,14 +668,14 @@ Section LookupSound.
   Proof.
     clear tree_stale.
     clear tree_stale_epoch.
-    intros [(U1 & U2 & U3 & U4) U5] Hv H. unfold verify_single_update in H. cbn [andb] in H.
+    intros [(U1 & U2 & U3 & U4 & U6) U5] Hv H. unfold verify_single_update in H. cbn [andb] in H.
     destruct (verify_existence_with_val _ _ _ _ _ _ _ _ _ _ _ _) eqn:Ex; [|discriminate]. cbn [negb] in H.
     apply existence_with_val_sound in Ex; auto. destruct Ex as [(V1 & V2 & V3 & V4)|]; [|now right].
     assert (E1 : (up_version u <=? 1) = false) by (apply N.leb_gt; exact Hv). rewrite E1 in H.
     destruct (up_prev u) as [pm|]; [|discriminate]. destruct (up_prev_vrf u) as [pv|]; [|discriminate].
     destruct (verify_existence_with_commitment _ _ _ _ _ _ _ _ _ _ _) eqn:Ec; [|discriminate].
     unfold verify_existence_with_commitment in Ec. apply andb_true_iff in Ec. destruct Ec as [Hh Ec]. apply bytes_eqb_eq in Hh.
-    destruct (chain_leaf false (up_version u - 1) _ _ U5 Ec) as [(c2 & e2 & Hin2 & Hval & Dc)|]; [|now right].
+    destruct (chain_leaf false (up_version u - 1) _ _ ltac:(lia) U5 Ec) as [(c2 & e2 & Hin2 & Hval & Dc)|]; [|now right].
     rewrite <- Hh in Hval.
     destruct (N.ltb_spec e2 (2 ^ 64)) as [He2|He2].
     - apply (b_leaf_inj _ _ B) in Hval; auto. destruct Hval as [[Hc Hee]|]; [|now right].
@@ -734,3 +735,11 @@ Proof. reflexivity. Qed.
 Lemma stale_value_digest (H : bytes -> bytes) : (forall x, length (H x) = 32%nat) ->
   forall domain, D32 (c_stale_value (whatsapp H)) /\ D32 (c_stale_value (experimental H domain)).
 Proof. intros HL domain. split; [apply HL | reflexivity]. Qed.
+
+Lemma nonce_len_real (H : bytes -> bytes) : (forall x, length (H x) = 32%nat) ->
+  forall domain key lb ver value,
+    Len64 (c_commitment_nonce (whatsapp H) key lb ver value) /\ Len64 (c_commitment_nonce (experimental H domain) key lb ver value).
+Proof.
+  intros HL domain key lb ver value. unfold Len64. cbn [c_commitment_nonce whatsapp experimental]. rewrite !HL.
+  assert (N.of_nat 32 < 2 ^ 64) by (vm_compute; reflexivity). split; assumption.
+Qed.
